@@ -43,7 +43,7 @@ func (c03) Cases(tier string, race bool) int {
 }
 
 var c03keys = []string{"a", "b", "c", "d", "e1", "x-y", "Z_z", "ns:q", "doc", "element", "_seq", "_", "object"}
-var c03strs = []string{"", "t", "hello", " pad ", "<&>\"'", "&amp;", "&lt;", "1", "true", "é世", "a]]>b", "x\ny", "<![CDATA[q]]>", "--", "</a>", `\u003c`, `a\u0026b\u003e`, "100%", "\ufeffx", "x\ufeff", `\u2028`}
+var c03strs = []string{"", "t", "hello", " pad ", "<&>\"'", "&amp;", "&lt;", "1", "true", "é世", "a]]>b", "x\ny", "<![CDATA[q]]>", "--", "</a>", `\u003c`, `a\u0026b\u003e`, "100%", "\ufeffx", "x\ufeff", `\u2028`, "&#65;", "&#x41;", "&amp;#65;", "x&#10;y", "&quot;", "&apos;q"}
 
 // c03key: a key from the alphabet, now and then a literal of the tree under test that is a valid XML name.
 func c03key(r *rand.Rand) string {
@@ -252,6 +252,7 @@ func (c03) Case(c *core.Ctx) {
 	defer ResetDefaults()
 	defer verifyKept(c, "c03-retained-output-changed")
 	c.Eval()
+	failedCalls(c, 8)
 
 	var value interface{}
 	var want *xt.Node
